@@ -166,3 +166,17 @@ Proof.
   exact (PipelineLocal.inside_pipe_generated algo mb hash hlen (fun _ _ _ _ => None) None mu MP TP HL F0 file L).
 Qed.
 Print Assumptions C08_generated_entries_are_inside.
+
+(* and the no-crash hypothesis of C08_no_crash holds of the composed block stage by construction *)
+From PFF Require Proofs.PipelineClean.
+Theorem C08_no_crash_pipe :
+  forall (algo : N) (mb : nat) hash hlen bdec (o : option byte) fast ms hdr (mu : nat -> nat -> nat)
+         marker delim ignore_size look intra window db,
+    run_h marker delim ignore_size look intra (C03Inst.blocksH_pipe algo mb hash hlen bdec o fast ms hdr) db <> Crash /\
+    run_w marker delim ignore_size look intra window (C03Inst.blocksW_pipe algo mb hash hlen bdec o fast mu) db <> Crash.
+Proof.
+  intros. apply C08_no_crash.
+  - intros t z f. unfold C03Inst.blocksH_pipe, PipelineClean.bres_of. destruct (Pipeline.f_class _); discriminate.
+  - intros d t e z f. cbn [fst C03Inst.blocksW_pipe]. unfold PipelineClean.bres_of. destruct (Pipeline.f_class _); discriminate.
+Qed.
+Print Assumptions C08_no_crash_pipe.
